@@ -75,6 +75,8 @@ def main(tier):
     V.build_harness(["asmdrive"])
     rnd = V.rng("C03")
     wd = V.workdir("C03")
+    import concurrent.futures
+    wide_future = concurrent.futures.ThreadPoolExecutor(max_workers=1).submit(wide_tlc, tier, wd)
     cfg = os.path.join(wd, "MC_Expr.cfg")
     with open(cfg, "w") as f:
         f.write(open(os.path.join(SPEC, "MC_Expr.cfg")).read().replace("Deep = FALSE", "Deep = %s" % ("TRUE" if tier == "thorough" else "FALSE")))
@@ -141,13 +143,12 @@ def main(tier):
     for v in verdicts:
         cid = v["id"]
         rep.verdict(v, {"program": meta[cid]["src"], "tree": meta[cid]["tree"], "observation": omap[cid], "judge": "spec/Expr/ExprTrace.tla", "why": v.get("why")})
-    wide_part(rep, tier, rnd, wd)
+    wide_part(rep, tier, rnd, wd, wide_future)
     return rep.finish()
 
 
-def wide_part(rep, tier, rnd, wd):
-    """The 64-bit domain: Wide.tla / WideExpr.tla (values as base-256 limbs), MC_Wide (agreement with Expr.tla on its whole case
-    domain, arithmetic laws on 64-bit values, export), WideTrace (judge of the stored bytes)."""
+def wide_tlc(tier, wd):
+    """MC_Wide (started at the beginning of the check, next to MC_Expr: the two model-checking runs share nothing)."""
     cfg = os.path.join(wd, "MC_Wide.cfg")
     base = open(os.path.join(SPEC, "MC_Wide.cfg")).read()
     with open(cfg, "w") as f:
@@ -155,7 +156,14 @@ def wide_part(rep, tier, rnd, wd):
     out = os.path.join(wd, "wide-cases.ndjson")
     if os.path.exists(out):
         os.remove(out)
-    r = V.tlc_must_pass(os.path.join(SPEC, "MC_Wide.tla"), cfg=cfg, env={"OUT": out}, workers=8, timeout=2400, tag="C03-wide-mc", xmx="8g")
+    r = V.tlc_must_pass(os.path.join(SPEC, "MC_Wide.tla"), cfg=cfg, env={"OUT": out}, workers=6, timeout=2400, tag="C03-wide-mc", xmx="8g")
+    return r, out
+
+
+def wide_part(rep, tier, rnd, wd, wide_future):
+    """The 64-bit domain: Wide.tla / WideExpr.tla (values as base-256 limbs), MC_Wide (agreement with Expr.tla on its whole case
+    domain, arithmetic laws on 64-bit values, export), WideTrace (judge of the stored bytes)."""
+    r, out = wide_future.result()
     rep.add_tlc(r)
     # vacuity is controlled inside the module (ASSUME NonVacuous: a failing assumption is a TLC error, hence a tool error here)
     tcases = V.read_ndjson(out)
